@@ -129,6 +129,9 @@ func sortedKeys(m map[string]*big.Int) []string {
 }
 
 func ecEqual(a, b *ecdsa.PrivateKey) bool {
+	if a == nil || b == nil || a.D == nil || b.D == nil || a.X == nil || a.Y == nil || b.X == nil || b.Y == nil || a.Curve == nil || b.Curve == nil {
+		return false
+	}
 	return a != nil && b != nil && a.D.Cmp(b.D) == 0 && a.X.Cmp(b.X) == 0 && a.Y.Cmp(b.Y) == 0 &&
 		a.Curve.Params().Name == b.Curve.Params().Name && a.Curve.Params().N.Cmp(b.Curve.Params().N) == 0
 }
@@ -220,10 +223,11 @@ func c17EC(x *engine.Ctx, c *c17Case) {
 		}
 	}
 	// standard layouts built by the reference encoder
-	for _, enc := range []refx509.ECEncoding{{OuterOID: true}, {OuterOID: true, Public: true}, {OuterOID: true, InnerOID: true, Public: true}, {OuterOID: true, InnerOID: true}} {
+	for _, enc := range []refx509.ECEncoding{{OuterOID: true}, {OuterOID: true, Public: true}, {OuterOID: true, InnerOID: true, Public: true}, {OuterOID: true, InnerOID: true},
+		{InnerOID: true}, {InnerOID: true, Public: true}, {OuterOID: true, Public: true, Compressed: true}, {OuterOID: true, InnerOID: true, Public: true, Compressed: true}} {
 		der := refx509.BuildECPKCS8(ci, d, enc)
 		gk, err := cert.ParsePKCS8PrivateKey(der)
-		lay := fmt.Sprintf("outer=%v inner=%v public=%v", enc.OuterOID, enc.InnerOID, enc.Public)
+		lay := fmt.Sprintf("outer=%v inner=%v public=%v compressed=%v", enc.OuterOID, enc.InnerOID, enc.Public, enc.Compressed)
 		if err != nil {
 			x.Violation("C17/interop/gopki-rejects-standard-pkcs8 "+lay+" "+feat, err.Error())
 		} else if ek, ok := gk.(*ecdsa.PrivateKey); !ok || !ecEqual(key, ek) {
@@ -532,7 +536,7 @@ func init() {
 	register(&engine.Check{
 		ID:          "C17",
 		Level:       "exploration",
-		Rule:        "10 curves x boundary scalars (1,2,3,n-1,n-2,n/2, the largest and smallest value of every octet length 1..len-1, i.e. every number of leading zero octets, 8 mid-range; 70..150 per curve) through cert.WritePrivateKeyToPem -> cert.ReadPem, the reference PKCS#8 decoder, crypto/x509 in both directions (NIST) , 4 reference-built PKCS#8 layouts and the minimal-length (leading zeros stripped) encodings; 10 RSA fixture keys 1024..4096; artifact files for all 16 block orders over {cert,key,request} x hash line x 4 key types; rejection inputs: scalar n, n+1, 2^(8len)-1, unknown/missing curve, ECPrivateKey version 0/2, swapped RSA/EC bodies, unknown algorithm, every strict prefix of a valid EC key per curve and of an RSA key, PEM around non-DER. non-trivial = distinct case that reached a comparison",
+		Rule:        "10 curves x boundary scalars (1,2,3,n-1,n-2,n/2, the largest and smallest value of every octet length 1..len-1, i.e. every number of leading zero octets, 8 mid-range; 70..150 per curve) through cert.WritePrivateKeyToPem -> cert.ReadPem, the reference PKCS#8 decoder, crypto/x509 in both directions (NIST) , 8 reference-built PKCS#8 layouts (curve OID outer / inner / both, with and without embedded public key, compressed public point) and the minimal-length (leading zeros stripped) encodings; 10 RSA fixture keys 1024..4096; artifact files for all 16 block orders over {cert,key,request} x hash line x 4 key types; rejection inputs: scalar n, n+1, 2^(8len)-1, unknown/missing curve, ECPrivateKey version 0/2, swapped RSA/EC bodies, unknown algorithm, every strict prefix of a valid EC key per curve and of an RSA key, PEM around non-DER. non-trivial = distinct case that reached a comparison",
 		Bound:       map[string]string{"scalars": "boundary values only (any valid scalar is unbounded)", "rsa": "fixture keys 1024,1536,2048,3072,4096 (two each)"},
 		Assumptions: []string{"outer PKCS#8 version, scalar 0 and trailing bytes after a complete DER value are not in the rejection alphabet (neither gopki nor the standard library rejects them)", "crypto/x509 is the 'standard library parser' of the statement"},
 		Budget:      budgets(quickBudget, thoroughBudget),
